@@ -28,6 +28,8 @@ The rewrite (complete list -- nothing else is changed or dropped):
 """
 from __future__ import annotations
 
+from ._safe import isinstance
+
 import ast
 import builtins
 import importlib
@@ -44,6 +46,7 @@ def repo_root() -> str:
     return os.environ.get('PYVC_REPO', '/repo')
 
 _src_cache: dict[str, tuple[str, ast.Module]] = {}
+_code_cache: dict[tuple, Any] = {}
 
 
 def module_source(modname: str) -> tuple[Any, str, ast.Module]:
@@ -284,18 +287,21 @@ def load(modname: str, qualname: str, *, stubs: dict[str, Any] | None = None,
     node = find_def(tree, qualname)
     text = _src_cache[path][0]
     seg = lambda n: ast.get_source_segment(text, n) or ''
-    import copy
-    node2 = copy.deepcopy(node)
-    node2.decorator_list = [d for d in node2.decorator_list if ast.unparse(d) not in strip_decorators]
-    rw = _Rewriter(loops or {}, lambda n: _seg_by_pos(text, n))
-    node2 = rw.visit(node2)
-    if loops:
-        missing = set(loops) - rw.matched
-        if missing:
-            raise Unsupported(f'loop contracts {sorted(missing)} of {qualname} matched no loop (code restructured?)')
-    m = ast.Module(body=[node2], type_ignores=[])
-    ast.fix_missing_locations(m)
-    code = compile(m, path, 'exec')
+    ckey = (path, qualname, tuple(sorted((k, v.anchor) for k, v in (loops or {}).items())), tuple(strip_decorators))
+    code = _code_cache.get(ckey)
+    if code is None:
+        import copy
+        node2 = copy.deepcopy(node)
+        node2.decorator_list = [d for d in node2.decorator_list if ast.unparse(d) not in strip_decorators]
+        rw = _Rewriter(loops or {}, lambda n: _seg_by_pos(text, n))
+        node2 = rw.visit(node2)
+        if loops:
+            missing = set(loops) - rw.matched
+            if missing:
+                raise Unsupported(f'loop contracts {sorted(missing)} of {qualname} matched no loop (code restructured?)')
+        m = ast.Module(body=[node2], type_ignores=[])
+        ast.fix_missing_locations(m)
+        code = _code_cache[ckey] = compile(m, path, 'exec')
 
     ns: dict[str, Any] = dict(mod.__dict__)
     # class-level names for methods (e.g. other methods referenced unqualified are not visible anyway)
@@ -361,6 +367,10 @@ def _sync(x):
 
 
 def vc_is(a, b):
+    if isinstance(a, V.SFin):
+        return a.is_(b)
+    if isinstance(b, V.SFin):
+        return b.is_(a)
     if isinstance(a, V.SV) or isinstance(b, V.SV):
         if a is b:
             return True
@@ -378,6 +388,8 @@ def vc_is(a, b):
 
 
 def vc_in(a, b):
+    if isinstance(b, V.SFin):
+        b = b._resolve()
     if isinstance(b, (V.SStr, V.SSeq)):
         return b.contains(a)
     if isinstance(b, V.SJson):
@@ -520,7 +532,30 @@ def _shadow_builtins() -> dict[str, Any]:
             return V.SNum(z3.If(t >= 0, fl, z3.If(z3.ToReal(fl) == t, fl, fl + 1)), True)
         return builtins.int(x, *a)
 
-    out = dict(len=s_len, max=s_max, min=s_min, abs=s_abs)
+    def s_str(x='', *a):
+        if a:
+            return builtins.str(x, *a)
+        if isinstance(x, V.SStr):
+            return x
+        if isinstance(x, V.SFin):
+            return builtins.str(x._resolve())
+        if isinstance(x, V.SV):
+            return V.draw_str('str()')            # unmodelled rendering: fresh, unconstrained
+        if isinstance(x, BaseException) and _has_sym(x):
+            if len(x.args) == 1 and isinstance(x.args[0], V.SStr):
+                return x.args[0]
+            return V.draw_str('str(exc)')
+        if _has_sym(x):
+            return V.draw_str('str()')
+        return builtins.str(x)
+
+    def s_repr(x):
+        if _has_sym(x):
+            return V.draw_str('repr()')
+        return builtins.repr(x)
+
+    out = dict(len=s_len, max=s_max, min=s_min, abs=s_abs, repr=s_repr)
+    out['str'] = _TypeShadow(builtins.str, s_str)
     # `bool`, `list`, `int`, `float` are also used as types (isinstance, annotations): shadow them
     # with callables that still work in isinstance() via __instancecheck__.
     out['bool'] = _TypeShadow(builtins.bool, s_bool)
@@ -576,6 +611,7 @@ class _LoopRuntime:
             v0 = eng._variants[k]
             v1 = spec.variant(loc)
             eng.ensure(f'loop[{spec.name}].variant-decreases', V.And(v1 < v0, v0 >= 0))
+        eng.backedge = True
         eng.dead = True
         raise PathEnd(f'back edge of loop {k}')
 
